@@ -78,6 +78,8 @@ func (p *parser) value() any {
 	switch {
 	case t == "N":
 		return ogorek.None{}
+	case t == "NIL":
+		return nil // only as a Dict value: a Dict used as a set
 	case t == "T":
 		return true
 	case t == "F":
